@@ -152,6 +152,11 @@ def obligations(tier):
                                       'PathTableRecord.record_little_endian', 'PathTableRecord.record_big_endian', 'VolumeDescriptorSetTerminator.record',
                                       '_reassign_vd_dirrecord_extents'],
                         'samples': [(1, 2048, 2049)], 'stubs': ['M_struct', 'M_out', 'M_image', 'constant clock']})
+    # skeleton sk9 (a directory growing to two sectors around sub-directories; found the '..' length defect when run CONCRETELY through the
+    # reference reader) does not exhaust under CrossHair (> 20 min even with one symbolic length: ~55 records decoded from symbolic bytes):
+    # outside the claim; the seeded change C03-1 that needs it is therefore NOT caught (recorded in DESIGN.md).
+    from vf.props import packing
+    obs += packing.obligations_for('C03.d', tier)
     obs.append({'name': 'C03.c/lt_order', 'module': __name__, 'func': 'lt_order', 'params': {}, 'cond_timeout': 900, 'path_timeout': 100,
                 'bounds': 'all triples of identifiers of 1..3 bytes', 'functions': ['DirectoryRecord.__lt__']})
     return obs
